@@ -1,11 +1,145 @@
-(* Properties/C19.v — placeholder while the proofs are being written. *)
+(* Properties/C19.v — evaluation is total and reports exactly the documented recommendations.
+   Only statements closed by [exact] or by complete enumeration of a generated table;
+   proofs are in Proofs/C19_*.v.
+
+   [eval_tree eval_dispatch warn_codes parent t ws] models evaluate.tree(t, ws) for a node [t]
+   whose parent has name [parent] ([None]: no parent); [eval_node] models evaluate.node.
+   A result [EOk l] is the warnings list afterwards as (code name, node id) pairs;
+   [ECrash] stands for any exception.  [expected_at] is the table of Spec/Recommend.v. *)
 From MP Require Import Common.Base.
 From MP Require Import Common.Tree.
 From MP Require Import Gen.Tables.
 From MP Require Import Model.PyString.
 From MP Require Import Model.Evaluate.
 From MP Require Import Spec.Recommend.
+From MP Require Import Proofs.C19_Nodes.
+From MP Require Import Proofs.C19_Main.
 
-Theorem C19_codes_table : forallb (fun c => smem c warn_codes) model_codes = true.
+(** ** table obligations over the generated tables (re-run against the working tree) *)
+
+(** every code the evaluators can report is a member of EvaluationWarning *)
+Theorem C19_table_codes : forallb (fun c => smem c warn_codes) model_codes = true.
 Proof. vm_compute. reflexivity. Qed.
-Print Assumptions C19_codes_table.
+Print Assumptions C19_table_codes.
+
+(** the members referenced by evaluate.py are members, and are exactly the modelled ones *)
+Theorem C19_table_used :
+  subset warn_used warn_codes && subset warn_used model_codes && subset model_codes warn_used = true.
+Proof. vm_compute. reflexivity. Qed.
+Print Assumptions C19_table_used.
+
+(** every dispatch entry points to a modelled evaluator; its keys are known element names *)
+Theorem C19_table_dispatch :
+  fns_known eval_dispatch && subset (keys eval_dispatch) (keys node_map) = true.
+Proof. vm_compute. reflexivity. Qed.
+Print Assumptions C19_table_dispatch.
+
+(** the dispatch table is the one the recommendation table was written for *)
+Theorem C19_table_canonical : assoc_agree eval_dispatch canonical_dispatch = true.
+Proof. vm_compute. reflexivity. Qed.
+Print Assumptions C19_table_canonical.
+
+(** the element-name constants read by the evaluators have the values the model uses *)
+Theorem C19_table_names : names_agree name_consts = true.
+Proof. vm_compute. reflexivity. Qed.
+Print Assumptions C19_table_names.
+
+(** ** generic theorems (any dispatch / code table satisfying the obligations) *)
+Theorem C19_total_generic : forall dispatch codes,
+  fns_known dispatch = true ->
+  forallb (fun c => smem c codes) model_codes = true ->
+  forall parent t ws, exists new,
+    eval_tree dispatch codes parent t ws = EOk (ws ++ new) /\ Forall (fun w => In (fst w) codes) new.
+Proof. exact total_generic. Qed.
+Print Assumptions C19_total_generic.
+
+Theorem C19_exact_generic : forall dispatch codes,
+  fns_known dispatch = true ->
+  forallb (fun c => smem c codes) model_codes = true ->
+  assoc_agree dispatch canonical_dispatch = true ->
+  forall parent t ws, shape_ok t = true ->
+    eval_tree dispatch codes parent t ws = EOk (ws ++ expected_at parent t).
+Proof. exact exact_generic. Qed.
+Print Assumptions C19_exact_generic.
+
+(** ** the property, for the shipped tables *)
+
+(** Total: for EVERY tree (any names, any content, valid or not) and every initial list,
+    evaluation returns normally, leaves the earlier entries in place and appends only
+    entries whose code is a member of EvaluationWarning. *)
+Theorem C19_total : forall parent t ws, exists new,
+  eval_tree eval_dispatch warn_codes parent t ws = EOk (ws ++ new) /\
+  Forall (fun w => In (fst w) warn_codes) new.
+Proof.
+  apply total_generic.
+  - pose proof C19_table_dispatch as H. apply andb_true_iff in H as [H _]. exact H.
+  - exact C19_table_codes.
+Qed.
+Print Assumptions C19_total.
+
+(** Exact: on a tree whose single-valued children are single (what validation guarantees:
+    [shape_ok], Spec/Recommend.v), the appended entries are exactly the unmet rows of the
+    recommendation table, element by element in document order. *)
+Theorem C19_exact : forall parent t ws, shape_ok t = true ->
+  eval_tree eval_dispatch warn_codes parent t ws = EOk (ws ++ expected_at parent t).
+Proof.
+  apply exact_generic.
+  - pose proof C19_table_dispatch as H. apply andb_true_iff in H as [H _]. exact H.
+  - exact C19_table_codes.
+  - exact C19_table_canonical.
+Qed.
+Print Assumptions C19_exact.
+
+Theorem C19_exact_root : forall t ws, shape_ok t = true ->
+  eval_tree eval_dispatch warn_codes None t ws = EOk (ws ++ expected t).
+Proof. intros t ws. exact (C19_exact None t ws). Qed.
+Print Assumptions C19_exact_root.
+
+(** evaluate.node on one node: total, only member codes, and the unmet rows of that element. *)
+Theorem C19_node : forall parent t, exists ev,
+  eval_node eval_dispatch warn_codes parent t = NOk ev /\
+  Forall (fun c => In c warn_codes) (codes_of ev) /\
+  (shape_ok t = true -> codes_of ev = unmet parent t).
+Proof.
+  intros parent t.
+  destruct (node_generic eval_dispatch warn_codes) with (parent := parent) (t := t) as (ev & E & F & X).
+  - pose proof C19_table_dispatch as H. apply andb_true_iff in H as [H _]. exact H.
+  - exact C19_table_codes.
+  - exists ev. split; [exact E|]. split; [exact F|]. intro SH. exact (X C19_table_canonical SH).
+Qed.
+Print Assumptions C19_node.
+
+(** ** non-vacuity *)
+Definition ex_node (id name : string) (content : option pystr) (kids : list ftree) : ftree :=
+  FT {| n_id := s id; n_name := s name; n_content := content; n_tail := None; n_prefix := None;
+        n_attrs := []; n_extras := []; n_nsmap := [] |} kids.
+
+(** a dataset with a four-word title and a short abstract given as para text *)
+Definition ex_dataset : ftree :=
+  ex_node "d" "dataset" None
+    [ ex_node "t" "title" (Some (s "Soil flux data 2019")) [];
+      ex_node "c" "creator" None [ex_node "i" "individualName" None [ex_node "g" "surName" (Some (s "Lee")) []]];
+      ex_node "a" "abstract" None [ex_node "p" "para" (Some (s "Too short.")) []] ].
+
+Example C19_example :
+  shape_ok ex_dataset = true /\
+  eval_tree eval_dispatch warn_codes None ex_dataset [(s "EARLIER", s "x")] =
+  EOk ([(s "EARLIER", s "x")] ++
+       [ (s "DATASET_ABSTRACT_TOO_SHORT", s "d"); (s "DATASET_COVERAGE_MISSING", s "d"); (s "DATATABLE_MISSING", s "d");
+         (s "INTELLECTUAL_RIGHTS_MISSING", s "d"); (s "KEYWORDS_MISSING", s "d"); (s "DATASET_METHOD_STEPS_MISSING", s "d");
+         (s "DATASET_PROJECT_MISSING", s "d"); (s "TITLE_TOO_SHORT", s "t");
+         (s "ORCID_ID_MISSING", s "c"); (s "USER_ID_MISSING", s "c"); (s "EMAIL_MISSING", s "c");
+         (s "INDIVIDUAL_NAME_INCOMPLETE", s "i") ]).
+Proof. vm_compute. split; reflexivity. Qed.
+
+(** the hypothesis of C19_exact is needed: with two abstracts the code reads the LAST one,
+    the table reads "the" (first) one *)
+Definition ex_two_abstracts : ftree :=
+  ex_node "d" "dataset" None
+    [ ex_node "a1" "abstract" (Some (s "short")) [];
+      ex_node "a2" "abstract" None [] ].
+
+Example C19_hypothesis_needed :
+  shape_ok ex_two_abstracts = false /\
+  eval_tree eval_dispatch warn_codes None ex_two_abstracts [] <> EOk ([] ++ expected ex_two_abstracts).
+Proof. split; [vm_compute; reflexivity | vm_compute; discriminate]. Qed.
